@@ -1335,3 +1335,126 @@ theorem mem_firstOccurrencesFrom (acc l : List String) (s : String) :
 end Compare
 
 end ChemModel.OdeBuild
+
+namespace ChemModel.OdeBuild
+open ChemModel.Kinetics
+
+/-! ## G. the explicit form: `Nᵀ·r` in terms of the user's data -/
+section Explicit
+variable {R : Type} [CommRing R] [Algebra ℚ R]
+
+/-- **No name is used twice across the name spaces that `variables` merges** (decidable):
+    every active reactant is a substance (what `ReactionSystem`'s default check `substance_keys` enforces);
+    no unique key, no substitution key and no CSTR parameter key equals a substance key; no unique key equals a CSTR
+    parameter key.  `subsKeys` are the keys of `substitutions` (`get_odesys`) / `parameter_expressions` (`_create_odesys`). -/
+def noCapture (sys : Sys) (subsKeys : List String) (cstr : Bool) : Bool :=
+  (sys.rxns.all fun r => (dkeys r.reac).all fun j => decide (j ∈ sys.subst)) &&
+  ((oriUk sys.rxns).all fun uk => !(decide (uk ∈ sys.subst))) &&
+  (subsKeys.all fun k => !(decide (k ∈ sys.subst))) &&
+  ((cstrKeys (cstrOf cstr sys.subst)).all fun k => !(decide (k ∈ sys.subst))) &&
+  ((oriUk sys.rxns).all fun uk => !(decide (uk ∈ cstrKeys (cstrOf cstr sys.subst))))
+
+theorem noCapture_iff (sys : Sys) (subsKeys : List String) (cstr : Bool) :
+    noCapture sys subsKeys cstr = true ↔
+      (∀ r ∈ sys.rxns, ∀ j ∈ dkeys r.reac, j ∈ sys.subst) ∧ (∀ uk ∈ oriUk sys.rxns, uk ∉ sys.subst) ∧
+      (∀ k ∈ subsKeys, k ∉ sys.subst) ∧ (∀ k ∈ cstrKeys (cstrOf cstr sys.subst), k ∉ sys.subst) ∧
+      (∀ uk ∈ oriUk sys.rxns, uk ∉ cstrKeys (cstrOf cstr sys.subst)) := by
+  simp [noCapture, and_assoc]
+
+/-- value of a parameter key: the substituted value if the key is substituted, else the binding of the free symbol -/
+def pval (subs : List (String × ℚ)) (env : String → R) (k : String) : R :=
+  match dget? subs k with
+  | some v => algebraMap ℚ R v
+  | none => env k
+
+/-- **the rate constant of a reaction in the user's terms**: a plain number is itself; a named constant is its substituted
+    value if substituted, else its STORED constant; a value-less key is its substituted value, else the binding of the free
+    parameter of that name -/
+def kOf (subs : List (String × ℚ)) (env : String → R) : RateParam → R
+  | .raw k => algebraMap ℚ R k
+  | .ma k => algebraMap ℚ R k
+  | .named uk k =>
+    match dget? subs uk with
+    | some v => algebraMap ℚ R v
+    | none => algebraMap ℚ R k
+  | .key uk => pval subs env uk
+  | .sym uk => pval subs env uk
+
+/-- the kinetic model of the user's data: row `s` of `Nᵀ·r` with `r_r = k_r · ∏ c_j^ν`, plus the feed term -/
+def kineticRhs (subs : List (String × ℚ)) (cstr : Bool) (env : String → R) (rxns : List Rxn) (s : String) : R :=
+  (rxns.map fun r => (netOf r s : R) * (kOf subs env r.param * (r.reac.map fun jν => env jν.1 ^ jν.2).prod)).sum +
+    (if cstr = true then pval subs env "feedratio" * (pval subs env ("fc_" ++ s) - env s) else 0)
+
+theorem cval_eq_pval (names ps : List String) (subs : List (String × ℚ)) (hnd : (dkeys subs).Nodup) (env : String → R)
+    {k : String} (hk : dmem (mkVars names ps subs) k = true) : cval (mkVars names ps subs) env k = pval subs env k := by
+  unfold cval lookup dgetD pval
+  cases hv : dget? subs k with
+  | some v => simp only [dget?_mkVars_subs names ps subs hnd hv, ev_const]
+  | none =>
+    have hm : k ∉ dkeys subs := dget?_eq_none_iff.mp hv
+    have := (dmem_mkVars_not_subs names ps subs hm).mp hk
+    simp only [dget?_mkVars_not_subs names ps subs hm, if_pos this, ev_var]
+
+theorem pval_of_not_subs (subs : List (String × ℚ)) (env : String → R) {k : String} (h : k ∉ dkeys subs) :
+    pval subs env k = env k := by
+  unfold pval; rw [dget?_eq_none_iff.mpr h]
+
+/-- reaction by reaction: the rate read through `variables` is the rate in the user's terms -/
+theorem rateVal_explicit (names ps : List String) (subs : List (String × ℚ)) (hnd : (dkeys subs).Nodup) (env : String → R)
+    (r : Rxn) (hreacN : ∀ j ∈ dkeys r.reac, j ∈ names) (hsubsN : ∀ k ∈ dkeys subs, k ∉ names)
+    (hukN : ∀ uk, r.param.uniqueKey? = some uk → uk ∉ names)
+    (hbind : ∀ uk k, r.param = .named uk k → uk ∉ dkeys subs → uk ∈ ps → env uk = algebraMap ℚ R k)
+    (hres : (resolve (mkVars names ps subs) r.param).isSome = true) :
+    rateVal (mkVars names ps subs) env r = kOf subs env r.param * (r.reac.map fun jν => env jν.1 ^ jν.2).prod := by
+  have hprod : (r.reac.map fun jν => cval (mkVars names ps subs) env jν.1 ^ jν.2) = (r.reac.map fun jν => env jν.1 ^ jν.2) := by
+    apply List.map_congr_left
+    intro jν hjν
+    have hj : jν.1 ∈ names := hreacN jν.1 (by simpa [dkeys] using ⟨jν.2, hjν⟩)
+    have hns : jν.1 ∉ dkeys subs := fun h => hsubsN _ h hj
+    have hd : dmem (mkVars names ps subs) jν.1 = true := (dmem_mkVars_not_subs names ps subs hns).mpr (Or.inr hj)
+    rw [cval_eq_pval names ps subs hnd env hd, pval_of_not_subs subs env hns]
+  unfold rateVal
+  rw [hprod]
+  have hkey : ∀ uk, r.param.uniqueKey? = some uk → ∀ p, dget? (mkVars names ps subs) uk = some p →
+      ev env p = pval subs env uk ∧ (uk ∉ dkeys subs → uk ∈ ps) := by
+    intro uk huk p hp
+    have hd : dmem (mkVars names ps subs) uk = true := by simp [dmem, hp]
+    have := cval_eq_pval names ps subs hnd env hd
+    refine ⟨by simpa [cval, lookup, dgetD, hp] using this, fun hns => ?_⟩
+    rcases (dmem_mkVars_not_subs names ps subs hns).mp hd with h | h
+    · exact h
+    · exact absurd h (hukN uk huk)
+  cases hp : r.param with
+  | raw k => simp [resolve, kOf, ev_const]
+  | ma k => simp [resolve, kOf, ev_const]
+  | key uk =>
+    rw [hp] at hres
+    simp only [resolve] at hres ⊢
+    cases hk : dget? (mkVars names ps subs) uk with
+    | none => simp [hk] at hres
+    | some p => simp only [kOf, (hkey uk (by simp [hp, RateParam.uniqueKey?]) p hk).1]
+  | sym uk =>
+    rw [hp] at hres
+    simp only [resolve] at hres ⊢
+    cases hk : dget? (mkVars names ps subs) uk with
+    | none => simp [hk] at hres
+    | some p => simp only [kOf, (hkey uk (by simp [hp, RateParam.uniqueKey?]) p hk).1]
+  | named uk k =>
+    simp only [resolve, kOf]
+    cases hk : dget? (mkVars names ps subs) uk with
+    | some p =>
+      obtain ⟨h1, h2⟩ := hkey uk (by simp [hp, RateParam.uniqueKey?]) p hk
+      simp only [h1, pval]
+      cases hv : dget? subs uk with
+      | some v => rfl
+      | none =>
+        have hns : uk ∉ dkeys subs := dget?_eq_none_iff.mp hv
+        simp only [hbind uk k hp hns (h2 hns)]
+    | none =>
+      cases hv : dget? subs uk with
+      | some v => rw [dget?_mkVars_subs names ps subs hnd hv] at hk; cases hk
+      | none => simp only [ev_const]
+
+end Explicit
+
+end ChemModel.OdeBuild
